@@ -1,5 +1,6 @@
 """C05 — relayed data arrives complete, ordered and intact, or the reader is dropped"""
 from hubcommon import HubMode
+from relaycommon import RelayMode
 
 RULE = ("hub mode (see C03): writers and readers with buffers 1..8, drains at arbitrary cut points (frames merging 1..8 queued "
         "messages), stalled readers that overflow; failures reported here: a reader's frame differs from the concatenation of the "
@@ -13,4 +14,4 @@ THEOREMS = [(f"Hub.{n}", P) for n in ["frame_is_whole_messages", "stream_integri
 
 
 def modes(tier):
-    return [HubMode("C05")]
+    return [HubMode("C05"), RelayMode("C05")]
